@@ -206,6 +206,67 @@ type adaptiveProbe struct {
 	Leased int    `json:"leased"`
 	AgeSec int    `json:"age_sec"`
 	Route  string `json:"route"`
+	Trend  []int  `json:"trend"` // backlog history, one sample a minute, oldest first, the last one at the instant of the decision
+}
+
+// trendBacklog gives a backlog store a fixed backlog-trend history relative to the instant it is asked about (the admission
+// controller asks for [now-window, now]): the verdict on it depends on the trend_signals configuration alone.
+type trendBacklog struct {
+	queue.Store
+	trend []int
+	key   string
+
+	gmu     sync.Mutex
+	gate    chan struct{} // when set, ListBacklogTrend announces itself on entered and waits for the gate
+	entered chan struct{}
+}
+
+func (t *trendBacklog) hold() {
+	t.gmu.Lock()
+	t.gate = make(chan struct{})
+	t.entered = make(chan struct{}, 4)
+	t.gmu.Unlock()
+}
+
+func (t *trendBacklog) release() {
+	t.gmu.Lock()
+	g := t.gate
+	t.gate = nil
+	t.gmu.Unlock()
+	if g != nil {
+		close(g)
+	}
+}
+
+var (
+	trendStoresMu sync.Mutex
+	trendStores   = map[*app.VerifState]*trendBacklog{}
+)
+
+func (t *trendBacklog) CaptureBacklogTrendSample(time.Time) error { return nil }
+
+func (t *trendBacklog) ListBacklogTrend(req queue.BacklogTrendListRequest) (queue.BacklogTrendListResponse, error) {
+	t.gmu.Lock()
+	g, e := t.gate, t.entered
+	t.gmu.Unlock()
+	if g != nil {
+		e <- struct{}{}
+		<-g
+	}
+	until := req.Until
+	if until.IsZero() {
+		until = time.Now()
+	}
+	var out []queue.BacklogTrendSample
+	n := len(t.trend)
+	for i, q := range t.trend {
+		at := until.Add(-time.Duration(n-1-i) * time.Minute)
+		if !req.Since.IsZero() && at.Before(req.Since) {
+			continue
+		}
+		out = append(out, queue.BacklogTrendSample{CapturedAt: at, Queued: q})
+	}
+	return queue.BacklogTrendListResponse{Items: out}, nil
 }
 
 func backlogStore(queued, leased, ageSec int) queue.Store {
@@ -296,9 +357,25 @@ func fingerprint(v *app.VerifState, running config.Compiled, ps probeSet, clk *v
 		out = append(out, fmt.Sprintf("admin[%d] %s %s token=%q -> %d %s enq=%v", i, p.Method, p.Path, p.Token, w.Code, strings.TrimSpace(body), storeContents(st)))
 	}
 	for i, p := range ps.Adaptive {
-		v.SetQueueStore(backlogStore(p.Queued, p.Leased, p.AgeSec))
+		if len(p.Trend) > 0 {
+			// one store object for the life of the state, as in the running process (installing a store resets what the controller
+			// remembers): the probes of one state share it as long as they describe the same backlog
+			key := fmt.Sprintf("%d/%d/%d/%v", p.Queued, p.Leased, p.AgeSec, p.Trend)
+			trendStoresMu.Lock()
+			cur := trendStores[v]
+			if cur == nil || cur.key != key {
+				cur = &trendBacklog{Store: backlogStore(p.Queued, p.Leased, p.AgeSec), trend: p.Trend, key: key}
+				trendStores[v] = cur
+				v.SetQueueStore(cur)
+			}
+			trendStoresMu.Unlock()
+		} else {
+			v.SetQueueStore(backlogStore(p.Queued, p.Leased, p.AgeSec))
+		}
 		dec := v.AdmissionDecision(p.Route)
-		v.SetQueueStore(backlogStore(p.Queued, p.Leased, p.AgeSec))
+		if len(p.Trend) == 0 {
+			v.SetQueueStore(backlogStore(p.Queued, p.Leased, p.AgeSec))
+		}
 		st := queue.NewMemoryStore()
 		w := httptest.NewRecorder()
 		v.Ingress(st, running, nopHook{}).ServeHTTP(w, buildIngressRequest(ingProbe{Method: "POST", Path: p.Route, BodyLen: 3}))
@@ -307,7 +384,13 @@ func fingerprint(v *app.VerifState, running config.Compiled, ps probeSet, clk *v
 		clk.Advance(time.Hour)
 	}
 	if len(ps.Adaptive) > 0 {
-		v.SetQueueStore(nil)
+		trendStoresMu.Lock()
+		keep := trendStores[v] != nil
+		trendStoresMu.Unlock()
+		if !keep {
+			// (a state that carries a trend store keeps it for its whole life, as the running process keeps its store)
+			v.SetQueueStore(nil)
+		}
 		for _, l := range v.EffectiveAdmissionConfig() {
 			out = append(out, "effective "+l)
 		}
@@ -401,6 +484,9 @@ type failedCase struct {
 	RmFiles  []string          `json:"rm_files"`  // removed between start-up and reload
 	Probes   probeSet          `json:"probes"`
 	LimitHit *ingProbe         `json:"limit_hit"` // one request sent before the reload to take a token out of a bucket
+	// the admission controller's background refresh of the backlog-trend verdict (started by a request once the cached verdict is a
+	// second old) is still inside the store when the reload happens, and finishes right after it
+	TrendRefreshInFlight bool `json:"trend_refresh_in_flight"`
 }
 
 type failedRes struct {
@@ -498,7 +584,27 @@ func reloadFailed(inb []byte) (any, error) {
 			}
 		}
 
+		var heldTrend *trendBacklog
+		if c.TrendRefreshInFlight {
+			trendStoresMu.Lock()
+			heldTrend = trendStores[st]
+			trendStoresMu.Unlock()
+			if heldTrend != nil && len(probes.Adaptive) > 0 {
+				time.Sleep(1100 * time.Millisecond) // the controller runs on the real clock; its verdict is cached for a second
+				heldTrend.hold()
+				_ = st.AdmissionDecision(probes.Adaptive[0].Route) // served from the old verdict; starts the background refresh
+				select {
+				case <-heldTrend.entered:
+				case <-time.After(2 * time.Second):
+					res.SetupError = "the background trend refresh did not start"
+				}
+			}
+		}
 		ret, ok := app.VerifReload(cfgPath, running, st)
+		if heldTrend != nil {
+			heldTrend.release()
+			time.Sleep(60 * time.Millisecond) // the refresh that was started before the reload finishes now
+		}
 		res.ReloadOK = ok
 		res.ReturnedRunning = reflect.DeepEqual(ret, running)
 		if res.NewCompiles {
